@@ -1535,10 +1535,19 @@ def is_trivial(f):
 
 def call_function(eng, f, recv, args, kwargs, st, recv_static=None, via_super=False, exact=False):
     c = eng.reg.contracts.get(f.qual)
-    if f.name == "__init__" and eng.reg.variants:
+    if eng.reg.variants and any(q == f.qual for (q, _c) in eng.reg.variants):
         on_self = recv is not None and "self" in st.env and st.env["self"].t is not None and recv.t is not None \
             and recv.t.eq(st.env["self"].t)
-        c = eng.reg.contract_for(f.qual, eng.self_class if (on_self and eng.self_class) else recv_static)
+        if f.name == "__init__":
+            c = eng.reg.contract_for(f.qual, eng.self_class if (on_self and eng.self_class) else recv_static)
+        elif on_self and eng.self_class:
+            c = eng.reg.contract_for(f.qual, eng.self_class)
+        else:
+            vcls = [cl for (q, cl) in eng.reg.variants if q == f.qual]
+            if recv is not None and recv.ty.kind == "ref" and any(
+                    eng.table.is_subclass(v, recv.ty.cls) or eng.table.is_subclass(recv.ty.cls, v) for v in vcls):
+                raise Unsupported("%s has receiver-class specific contracts %s: a call on a receiver other than self "
+                                  "cannot choose one" % (f.qual, vcls))
     if eng.spec:
         return spec_method_call(eng, f, c, recv, args, kwargs, st)
     eng.callees.add(f.qual)
